@@ -66,7 +66,11 @@ func init() {
 		w.rec.Start()
 		w.rec.emit("p", "Scenario", map[string]any{"name": "evidence", "variant": int(seed)}, nil, nil)
 		w.Block("p", 5, nil)
-		scEvidence(t, w, int(seed))
+		if seed%3 == 2 {
+			scMisbehaviour(t, w, int(seed)/3)
+		} else {
+			scEvidence(t, w, int(seed))
+		}
 		return w
 	}
 	scenarios["scripted"] = func(t *testing.T, seed int64) *World {
